@@ -361,19 +361,12 @@ func c04Wipe(c *Ctx) {
 			n++
 			name := fnName(fn)
 			// after the wipe: a baseline fetch on every success path, unless the database is not live
-			var base []ssa.CallInstruction
-			for _, b := range calls(fn) {
-				switch calleeName(b) {
-				case "(*ls.DB).checkDatabaseBehindReplica":
-					base = append(base, b)
-				}
-				if strings.HasSuffix(calleeName(b), ".OpenLTXFile") {
-					base = append(base, b)
-				}
-			}
+			base := callSitesV(fn, func(n string) bool {
+				return n == "(*ls.DB).checkDatabaseBehindReplica" || strings.HasSuffix(n, ".OpenLTXFile")
+			})
 			avoid := map[*ssa.BasicBlock]bool{}
 			for _, b := range base {
-				avoid[b.Block()] = true
+				avoid[b.At().Block()] = true
 			}
 			notLive := []FP{
 				cmpFact(vFieldLoad("DB.db", nil), token.EQL, vNil(), "db.db == nil (not initialised)"),
@@ -437,8 +430,8 @@ func c04Behind(c *Ctx) {
 		for _, r := range successReturns(fn) {
 			if reachable(fn, nil, nil)[r.Block()] {
 				fetched := false
-				for _, o := range callsTo(fn, nameHasSuffix(".OpenLTXFile")) {
-					if dominates(o, r) {
+				for _, o := range callSitesV(fn, nameHasSuffix(".OpenLTXFile")) {
+					if dominates(o.At(), r) {
 						fetched = true
 					}
 				}
@@ -451,7 +444,8 @@ func c04Behind(c *Ctx) {
 				})
 			}
 		}
-		for _, o := range callsTo(fn, nameHasSuffix(".OpenLTXFile")) {
+		for _, vo := range callSitesV(fn, nameHasSuffix(".OpenLTXFile")) {
+			o := vo.Call()
 			a := o.Common().Args
 			ok := vConstInt(0)(a[1]) && vFieldLoad("FileInfo.MinTXID", vIs(info))(a[2]) && vFieldLoad("FileInfo.MaxTXID", vIs(info))(a[3])
 			c.check(ok, rule, name+": fetches the replica's newest L0 file", c.pos(o), "OpenLTXFile(0, info.MinTXID, info.MaxTXID)", "fetches another file")
